@@ -24,6 +24,30 @@ class HarnessError(Exception):
 class Fail:
     sig: str          # root-cause key: "<kind>:<discriminating detail>"
     detail: str = ""  # human-readable explanation of this particular instance
+    recipe: Any = None  # optional narrower recipe reproducing just this failure
+
+
+class _Tally:
+    """Lets a check that explores many sub-cases per recipe (all crash offsets of a session,
+    all cells of a matrix) report them: units -> evaluations, keys -> distinct non-trivial."""
+
+    def __init__(self):
+        self.reset()
+
+    def reset(self):
+        self.units = 0
+        self.keys: list[str] = []
+        self.labels: Counter = Counter()
+
+    def __call__(self, units: int = 0, nontrivial_keys: Iterable = (), labels: dict | None = None):
+        self.units += units
+        for k in nontrivial_keys:
+            self.keys.append(hashlib.blake2b(repr(k).encode(), digest_size=8).hexdigest())
+        if labels:
+            self.labels.update(labels)
+
+
+tally = _Tally()
 
 
 @dataclass
@@ -128,6 +152,7 @@ class Recorder:
                 self.nontrivial.add(h)
                 if len(self.samples) < self.MAX_SAMPLES:
                     self.samples.append(abbreviate(recipe))
+        tally.reset()
         try:
             fails = leg.check(recipe)
         except HarnessError:
@@ -141,8 +166,11 @@ class Recorder:
                 self.harness_errors.append(traceback.format_exc(limit=12))
                 return
             fails = [Fail(sig, "".join(traceback.format_exception_only(type(e), e)).strip()[:400])]
+        self.evaluations += tally.units
+        self.nontrivial.update(tally.keys)
+        self.classes.update(tally.labels)
         for f in fails or ():
-            self.add_fail(f, recipe)
+            self.add_fail(f, f.recipe if f.recipe is not None else recipe)
 
     def add_fail(self, f: Fail, recipe: Any):
         size = len(canon(recipe))
